@@ -12,7 +12,7 @@ with additional seeded references goes through the same judge.
 import os
 import random
 
-from harness.common import MachineryError, run_tlc, SPEC, workdir, parallel, judge_traces
+from harness.common import deadline, MachineryError, run_tlc, SPEC, workdir, parallel, judge_traces
 from harness import tables, valtrace
 from harness.world import World, Node
 from harness.tables import walk
@@ -88,7 +88,8 @@ def record_expand(root, desc):
     valid_before = observe_tree_valid(root)
     raised = ""
     try:
-        references.expand(root)
+        with deadline(20):
+            references.expand(root)
     except Exception as e:  # noqa: BLE001
         raised = type(e).__name__
     for x in walk(root):                    # copies made by expand are new nodes
